@@ -546,8 +546,13 @@ def run_session(case: dict) -> dict:
                 bop = {"q": "build_decay_chains", "a": [op["m"]]}
                 res = "skipped"
                 try:
-                    chain = insts[i].build_decay_chains(op["m"]) if tree_size(insts[i], op["m"], {}) <= SIZE_LIMIT else None
-                except Exception:
+                    small = tree_size(insts[i], op["m"], {}) <= SIZE_LIMIT
+                    if small and op["how"] == "expand":
+                        from worlds.decsnap import path_count
+
+                        small = path_count(insts[i], op["m"], {}) <= PATH_LIMIT  # the expansion is a product over daughters
+                    chain = insts[i].build_decay_chains(op["m"]) if small else None
+                except (Exception, RecursionError):
                     chain = None
                 if chain is not None:
                     stats["consumes"] += 1
